@@ -336,6 +336,26 @@ pub fn run(fam: &str, t: &mut Toks) -> Option<R<String>> {
             let mut c = p_case(t)?;
             Ok(run_case(&mut c))
         })()),
+        "reuse" => Some((|| {
+            // one Vm value used for two executions: `<index2> <prog2> prog <case>`: the case is executed; if that succeeds the
+            // same Vm (pc reset to 0, everything else as the first run left it) executes prog2 for solution index2 of the same set
+            let index2 = t.nat()?;
+            let prog2 = t.bytes()?;
+            if t.tok()? != "prog" {
+                return Err("reuse family".into());
+            }
+            let mut c = p_case(t)?;
+            c.mode = "ops".into();
+            let r1 = run_case(&mut c);
+            if !r1.starts_with("ok") {
+                return Ok(r1);
+            }
+            c.vm.pc = 0;
+            c.index = index2;
+            c.prog = prog2;
+            let r2 = run_case(&mut c);
+            Ok(format!("{r1} | {r2}"))
+        })()),
         _ => None,
     }
 }
